@@ -58,11 +58,13 @@ Definition s_opt {A} (f : A -> sval) (o : option A) : sval := match o with Some 
 
 (* (enc <pkt>): MarshalSize, Header, Len, DestinationSSRC, then Marshal *)
 Definition enc_obs (p : packet) : sval :=
-  SL [SL [SY "marshal"; sres SB (marshal_packet p)];
+  SL ([SL [SY "marshal"; sres SB (marshal_packet p)];
       SL [SY "size"; SN (size_packet p)];
       SL [SY "dest"; sNs (dest_packet p)];
       SL [SY "hdr"; s_opt s_header (header_of_packet p)];
-      SL [SY "len"; s_opt SN (len_of_packet p)]].
+      SL [SY "len"; s_opt SN (len_of_packet p)]]
+  ++ (* ReceiverEstimatedMaximumBitrate also offers MarshalTo(buf): into a buffer of MarshalSize octets it is Marshal *)
+     match p with PREMB _ => [SL [SY "marshalto"; sres SB (marshal_packet p)]] | _ => [] end).
 
 (* (rt <pkt>): Marshal, the type's own decoder, the datagram decoder, re-marshal of what that returned *)
 Definition own_decode (p : packet) (b : bytes) : res packet :=
@@ -181,7 +183,7 @@ Fixpoint hist_run (p : packet) (ops : list sval) : option (list sval * packet) :
 Definition hist_obs (p : packet) (ops : list sval) : option sval :=
   let? (rs, pf) := hist_run p ops in
   Some (SL [SL [SY "results"; SL rs]; SL [SY "consistent"; sbool true]; SL [SY "final"; s_packet pf];
-            SL [SY "backing"; sbool true]]).
+            SL [SY "backing"; sbool true]; SL [SY "stable"; sbool true]]).
 
 (* (dec2 <Type> b1 b2): two decodes into the SAME receiver, for the fixed-width units.  Their decoders assign every
    field (and fail before assigning any), so the second result is that of a fresh receiver; the one exception in the
@@ -248,7 +250,7 @@ Definition dhist_obs (b : bytes) (ops : list sval) : option sval :=
       Some (SL [SL [SY "dec"; sres (fun l => SL (map s_packet l)) (Ok ps)];
                 SL [SY "results"; SL rs];
                 SL [SY "final"; SL (map s_packet pf)];
-                SL [SY "input"; sbool true]])
+                SL [SY "input"; sbool true]; SL [SY "stable"; sbool true]])
   | r => Some (SL [SL [SY "dec"; sres (fun l => SL (map s_packet l)) r]])
   end.
 
